@@ -237,7 +237,13 @@ def solve_scipy(
             # Scaled tolerance based on constraint magnitude
             scaled_tol = atol + rtol * max(1.0, abs(c_val))
 
-            if c["type"] == "ineq" and c_val < -scaled_tol:
+            if not np.isfinite(c_val):
+                # NaN / inf residual (e.g. log of a negative number): comparisons with
+                # NaN are always False and the scaled tolerance of -inf is inf, so
+                # this must be decided before the tolerance test
+                max_violation = np.inf
+                constraints_violated = True
+            elif c["type"] == "ineq" and c_val < -scaled_tol:
                 # Inequality constraint violated (should be >= 0)
                 violation = -c_val
                 max_violation = max(max_violation, violation)
@@ -252,7 +258,7 @@ def solve_scipy(
     for i, (lb, ub) in enumerate(bounds):
         x_i = float(result.x[i])
         violation = max(lb - x_i, x_i - ub)
-        if violation > atol + rtol * max(1.0, abs(x_i)):
+        if not np.isfinite(x_i) or violation > atol + rtol * max(1.0, abs(x_i)):
             max_violation = max(max_violation, violation)
             constraints_violated = True
 
